@@ -10,7 +10,7 @@ CONSTANTS
   PatternW = TRUE
   TdFlags = {FALSE}
   InVecs <- VecsQ
-  OrderKinds = {"IBOH"}
+  OrderKinds = {"IBOHr"}
   ActSchemes <- SchemesLinear
   LinkCaps = {2}
   MinLinks = 2
